@@ -280,7 +280,8 @@ def all_units(sh):
         vals = [(t, p, False) for t, p in d["vals"]]
         nulls = [(t, p, True) for t, p in d["nulls"]] + [(t, p, True) for t, p in UNTYPED_NULLS]
         allo = vals + nulls
-        for op in RELOPS:
+        # `matches` is the relational operator of strings (manual: relational operators yield null when an operand is null)
+        for op in RELOPS + (["matches"] if typ == "str" else []):
             for (xt, xp, xn) in allo:
                 for (yt, yp, yn) in allo:
                     if not xn and not yn and not (xt, yt) in [(vals[0][0], vals[1][0]), (vals[1][0], vals[0][0]), (vals[0][0], vals[0][0])]:
